@@ -399,6 +399,66 @@ func c02(r *Report, s *Sem) {
 		})
 	}
 
+	// ---- R7
+	R7 := r.Rule("R7", "JSON null resets an interface: after json.Unmarshal into an interface-typed variable (the authentication / document decode) the value may be nil whatever the factory returned, so no method is invoked on it — directly, or in a lime function it is handed to — without a nil test", 2)
+	for _, fn := range fns {
+		eachCall(fn, func(c ssa.CallInstruction) {
+			g := staticCallee(c)
+			if g == nil || g.Pkg == nil || g.Pkg.Pkg.Path() != "encoding/json" || (g.Name() != "Unmarshal" && g.Name() != "Decode") {
+				return
+			}
+			args := c.Common().Args
+			cell, ok := stripConv(args[len(args)-1]).(*ssa.Alloc)
+			if !ok {
+				return
+			}
+			if _, isIface := cell.Type().(*types.Pointer).Elem().Underlying().(*types.Interface); !isIface {
+				return
+			}
+			construct := "func " + fnName(fn) + " / interface value decoded by " + g.Name()
+			bad := ""
+			for _, ref := range *cell.Referrers() {
+				ld, ok := ref.(*ssa.UnOp)
+				if !ok || ld.Op != token.MUL || !reachesInstr(c.(ssa.Instruction), ld) {
+					continue
+				}
+				for _, use := range *ld.Referrers() {
+					uc, ok := use.(ssa.CallInstruction)
+					if !ok {
+						continue
+					}
+					guarded := condGuard(use.Block(), func(cd Cond) bool {
+						return cd.Op == token.NEQ && (stripConv(cd.X) == ssa.Value(ld) && isNilConst(cd.Y) || stripConv(cd.Y) == ssa.Value(ld) && isNilConst(cd.X))
+					})
+					if guarded {
+						continue
+					}
+					if uc.Common().IsInvoke() && stripConv(uc.Common().Value) == ssa.Value(ld) {
+						bad = "method " + uc.Common().Method.Name() + " invoked on it at " + p.instrPos(use)
+					}
+					if h := staticCallee(uc); h != nil && h.Pkg == p.Lime && len(h.Blocks) > 0 {
+						for i, a := range uc.Common().Args {
+							if stripConv(a) != ssa.Value(ld) || i >= len(h.Params) {
+								continue
+							}
+							for _, pref := range *h.Params[i].Referrers() {
+								if pc, ok := pref.(ssa.CallInstruction); ok && pc.Common().IsInvoke() && pc.Common().Value == ssa.Value(h.Params[i]) {
+									pg := condGuard(pref.Block(), func(cd Cond) bool {
+										return cd.Op == token.NEQ && (cd.X == ssa.Value(h.Params[i]) && isNilConst(cd.Y) || cd.Y == ssa.Value(h.Params[i]) && isNilConst(cd.X))
+									})
+									if !pg {
+										bad = "handed to " + fnName(h) + ", which invokes " + pc.Common().Method.Name() + " on it at " + p.instrPos(pref)
+									}
+								}
+							}
+						}
+					}
+				}
+			}
+			r.Check(R7, construct, p.instrPos(c.(ssa.Instruction)), bad == "", "a peer sending null for this member makes the value nil: "+bad)
+		})
+	}
+
 	R6 := r.Rule("R6", "accepted ⇒ re-encodable: co-presence symmetry between decoder and encoder (a member the encoder emits only together with another field is stored by the decoder only when that other member is on the wire), so what was accepted does not change under re-encoding", 10)
 	checkCoPresence(r, R6)
 
